@@ -315,10 +315,42 @@ def check(ctx):
         if s['k'] == 'BinaryOperator' and (s.get('op'), const_of(_unbool(kids(s)[1]))) in (('&', 31), ('%', 32)):
             sn = cn(f, kids(s)[0])
         return (n.get('op'), wn, sn)
-    rds = [addr(chk, kids(x)[0]) for x in chk.all_nodes() if x['k'] == 'ReturnStmt']
+    # reader: the masked word must reach the bool result as "non-zero" (conversion to bool or != 0); resolving single-definition locals
+    rds, how = [], []
+    for x in chk.all_nodes():
+        if x['k'] != 'ReturnStmt':
+            continue
+        e = _unbool(kids(x)[0])
+        test = 'nonzero'
+        if e['k'] == 'BinaryOperator' and e.get('op') in ('!=', '>', '<', '==', '>=', '<='):
+            l, r = [_unbool(y) for y in kids(e)]
+            if const_of(r) != 0:
+                raise AnalysisBroken('C12: result of bitbase::check is an unrecognised comparison')
+            test = e['op']
+            e = l
+        via = None
+        if e.get('ref', {}).get('k') == 'Local':
+            d = single_def(chk, e['ref']['id'])
+            if d is None:
+                raise AnalysisBroken('C12: result of bitbase::check comes from a local with several definitions')
+            via = (e.get('t') or '').replace('const ', '')
+            e = _unbool(d)
+        a = addr(chk, e)
+        if a is None:
+            raise AnalysisBroken('C12: reader expression of bitbase::check not recognised (%s)' % cn(chk, e))
+        rds.append(a)
+        # `> 0` on a signed 32-bit copy loses bit 31; `== 0` etc. invert the meaning
+        signed_copy = via in ('int', 'int32_t', 'long', 'short', 'signed char', 'char')
+        how.append(test == 'nonzero' and via in (None, 'bool', 'uint32_t', 'unsigned int', 'uint64_t', 'unsigned long', 'int', 'int32_t') or
+                   test == '!=' and via not in ('bool',) or
+                   test == '>' and not signed_copy and via != 'bool')
     wrs = [addr(init, x) for x in init.all_nodes() if x['k'] == 'CompoundAssignOperator' and 'BITBASE' in cn(init, x)]
+    if any(w is None for w in wrs):
+        raise AnalysisBroken('C12: writer expression of bitbase::init not recognised')
     ctx.ob('C12.R2.bit-addressing', 'check~init', rds == [('&', 'idx', 'idx')] and wrs == [('|=', 'idx', 'idx')],
            'the win bit of index idx is bit idx%%32 of word idx/32 for both writer and reader (%s / %s)' % (rds, wrs), site=chk.loc())
+    ctx.ob('C12.R2.bit-test', 'check', all(how) and bool(how),
+           'the masked word is reported as "bit set" exactly when it is non-zero (bit 31 included: no signed `> 0` test on a 32-bit copy)', site=chk.loc())
     ck = decl(chk, 'idx')
     ctx.ob('C12.R2.check-index', 'check', cn(chk, kids(ck)[0]) == 'getIndex(side,wKing,wPawn,bKing)' and
            [q['name'] for q in chk.params] == ['side', 'wKing', 'wPawn', 'bKing'],
